@@ -1,6 +1,8 @@
 package nfa
 
 import (
+	"sync"
+	"sync/atomic"
 	"unicode/utf8"
 
 	"github.com/coregx/coregex/internal/conv"
@@ -68,16 +70,6 @@ type captureFrame struct {
 	value int // old value to restore
 }
 
-// PikeVM implements the Pike VM algorithm for NFA execution.
-// It simulates the NFA by maintaining a set of active states and
-// exploring all possible paths through the automaton.
-//
-// The Pike VM is slower than DFA-based approaches but handles all
-// regex features including backreferences (future) and capturing groups.
-//
-// Thread safety: PikeVM configuration (nfa) is immutable after creation.
-// For thread-safe concurrent usage, use *WithState methods with external PikeVMState.
-// The legacy methods without state use internal state and are NOT thread-safe.
 // SkipAhead is a prefilter interface for PikeVM skip-ahead optimization.
 // When NFA has no active threads, Find skips to the next candidate position
 // instead of scanning byte-by-byte. This is the Rust approach (pikevm.rs:1293).
@@ -86,18 +78,54 @@ type SkipAhead interface {
 	Find(haystack []byte, start int) int
 }
 
+// PikeVM implements the Pike VM algorithm for NFA execution.
+// It simulates the NFA by maintaining a set of active states and
+// exploring all possible paths through the automaton.
+//
+// The Pike VM is slower than DFA-based approaches but handles all
+// regex features including backreferences (future) and capturing groups.
+//
+// Thread safety: a *PikeVM is safe for concurrent use by multiple goroutines.
+// The PikeVM itself holds only the program (nfa) and the configuration
+// (SetLongest, SetSkipAhead); all mutable scratch state of a search (thread
+// queues, sparse set, stacks, slot tables) lives in a pikeRun that a search
+// entry point takes from the PikeVM's own pool for the duration of the call
+// and returns afterwards. No search method writes to the PikeVM.
+//
+// The configuration setters (SetLongest, SetSkipAhead) are NOT synchronized:
+// call them before the PikeVM is shared, never concurrently with searches.
 type PikeVM struct {
 	nfa       *NFA
-	skipAhead SkipAhead // Optional prefilter for skip-ahead (nil = disabled)
+	skipAhead SkipAhead // Optional prefilter for skip-ahead (nil = disabled). Read-only during searches.
+	longest   bool      // Leftmost-longest semantics (SetLongest). Read-only during searches.
 
-	// internalState is used by legacy non-thread-safe methods.
-	// For concurrent usage, use *WithState methods with external PikeVMState.
+	// Per-search scratch states. A search takes a pikeRun (acquire) and gives it
+	// back when it is done (release), so concurrent searches never share one.
+	//
+	// localRun is a single-slot cache in front of the pool: it survives GC and
+	// serves the common uncontended case (one search at a time) without touching
+	// sync.Pool. runPool takes the overflow when several goroutines search at once.
+	localRun atomic.Pointer[pikeRun]
+	runPool  sync.Pool
+}
+
+// pikeRun is one PikeVM search in progress: the program and configuration of
+// the PikeVM it belongs to (copied on acquire, read-only) plus the mutable
+// scratch state, which is owned by exactly one goroutine between acquire and
+// release. All simulation code is written against pikeRun, so it cannot touch
+// state that is shared between goroutines.
+type pikeRun struct {
+	nfa       *NFA
+	skipAhead SkipAhead
+
+	// internalState is the scratch state of this run (internalState.Longest is
+	// the PikeVM's longest flag, refreshed on every acquire).
 	internalState PikeVMState
 }
 
 // PikeVMState holds mutable per-search state for PikeVM.
-// This struct should be pooled (via sync.Pool) for concurrent usage.
-// Each goroutine must use its own PikeVMState instance.
+// The PikeVM pools these internally (one per search in progress); a
+// PikeVMState must never be used by two searches at the same time.
 type PikeVMState struct {
 	// Thread queues for current and next generation (legacy, with COW captures)
 	// Pre-allocated to avoid allocations during search
@@ -144,7 +172,7 @@ type PikeVMState struct {
 // Implements leftmost-first semantics: leftmost start wins, then longest end wins.
 // Greedy/non-greedy is controlled by DFS thread ordering + break-on-first-match
 // in the search loop, not by priority comparison here.
-func (p *PikeVM) isBetterMatch(bestStart, bestEnd int,
+func (p *pikeRun) isBetterMatch(bestStart, bestEnd int,
 	candStart, candEnd int) bool {
 	return isBetterMatchWithLongest(bestStart, bestEnd, candStart, candEnd)
 }
@@ -265,8 +293,8 @@ func NewPikeVM(nfa *NFA) *PikeVM {
 	p := &PikeVM{
 		nfa: nfa,
 	}
-	// Initialize internal state
-	p.initState(&p.internalState)
+	// Pre-allocate the scratch state of the first search
+	p.localRun.Store(p.newRun())
 	return p
 }
 
@@ -287,12 +315,43 @@ func NewPikeVMLazy(nfa *NFA) *PikeVM {
 	}
 }
 
-// ensureInternalState lazily initializes the internal PikeVMState if needed.
-// Called at the entry point of every search method that uses internalState.
-func (p *PikeVM) ensureInternalState() {
-	if p.internalState.Visited == nil {
-		p.initState(&p.internalState)
+// newRun allocates the scratch state for one search.
+func (p *PikeVM) newRun() *pikeRun {
+	r := &pikeRun{nfa: p.nfa}
+	p.initState(&r.internalState)
+	return r
+}
+
+// acquire returns a pikeRun that is owned by the caller until release.
+// Every exported search method starts with acquire and ends with release;
+// the scratch state is allocated on the first search (NewPikeVMLazy) or when
+// more goroutines search at the same time than there are cached states.
+func (p *PikeVM) acquire() *pikeRun {
+	var r *pikeRun
+	// Load before Swap: under contention the slot is usually empty, and a
+	// plain load keeps the cache line shared instead of bouncing it.
+	if p.localRun.Load() != nil {
+		r = p.localRun.Swap(nil)
 	}
+	if r == nil {
+		if v := p.runPool.Get(); v != nil {
+			r = v.(*pikeRun)
+		} else {
+			r = p.newRun()
+		}
+	}
+	// Configuration may have been set after this run was created.
+	r.skipAhead = p.skipAhead
+	r.internalState.Longest = p.longest
+	return r
+}
+
+// release gives a pikeRun back after a search.
+func (p *PikeVM) release(r *pikeRun) {
+	if p.localRun.CompareAndSwap(nil, r) {
+		return
+	}
+	p.runPool.Put(r)
 }
 
 // initState initializes a PikeVMState for use with this PikeVM.
@@ -325,7 +384,7 @@ func (p *PikeVM) initState(state *PikeVMState) {
 
 // ensureSlotTables lazily initializes SlotTables and capture support.
 // Called only when capture tracking is needed (SearchWithSlotTableCaptures).
-func (p *PikeVM) ensureSlotTables(state *PikeVMState) {
+func (p *pikeRun) ensureSlotTables(state *PikeVMState) {
 	if state.SlotTable != nil {
 		return // Already initialized
 	}
@@ -347,6 +406,8 @@ func (p *PikeVM) ensureSlotTables(state *PikeVMState) {
 // SetSkipAhead sets the prefilter for skip-ahead optimization.
 // When set, PikeVM uses it to skip positions where no match can start
 // (when there are no active NFA threads). Safe for partial-coverage prefilters.
+// This is configuration: call it before the PikeVM is shared between goroutines,
+// not concurrently with searches.
 func (p *PikeVM) SetSkipAhead(sa SkipAhead) {
 	p.skipAhead = sa
 }
@@ -372,13 +433,14 @@ func (p *PikeVM) NumStates() int {
 // SetLongest enables or disables leftmost-longest (POSIX) matching semantics.
 // By default, uses leftmost-first (Perl) semantics where first alternative wins.
 // When longest=true, the longest match at the same start position wins.
-// Note: This modifies internal state. For thread-safe usage, set Longest directly on PikeVMState.
+// This is configuration: call it before the PikeVM is shared between goroutines,
+// not concurrently with searches.
 func (p *PikeVM) SetLongest(longest bool) {
-	p.internalState.Longest = longest
+	p.longest = longest
 }
 
 // newCaptures creates a new COW capture slots initialized to -1 (unset)
-func (p *PikeVM) newCaptures() cowCaptures {
+func (p *pikeRun) newCaptures() cowCaptures {
 	numSlots := p.nfa.CaptureCount() * 2 // Each group has start and end
 	if numSlots == 0 {
 		return cowCaptures{}
@@ -410,10 +472,8 @@ func updateCapture(caps cowCaptures, groupIndex uint32, isStart bool, pos int) c
 // The search is unanchored by default (matches anywhere in haystack)
 // unless the NFA was compiled with anchored mode.
 //
-// This method uses internal state and is NOT thread-safe.
-// For concurrent usage, use SearchWithState.
+// Safe for concurrent use (see PikeVM).
 func (p *PikeVM) Search(haystack []byte) (int, int, bool) {
-	p.ensureInternalState()
 	return p.SearchAt(haystack, 0)
 }
 
@@ -424,7 +484,14 @@ func (p *PikeVM) Search(haystack []byte) (int, int, bool) {
 // This is significantly faster than Search() when you only need to know
 // if a match exists, not where it is.
 func (p *PikeVM) IsMatch(haystack []byte) bool {
-	p.ensureInternalState()
+	r := p.acquire()
+	matched := r.isMatch(haystack)
+	p.release(r)
+	return matched
+}
+
+// isMatch implements IsMatch on this run's state.
+func (p *pikeRun) isMatch(haystack []byte) bool {
 	if len(haystack) == 0 {
 		return p.matchesEmpty()
 	}
@@ -439,7 +506,7 @@ func (p *PikeVM) IsMatch(haystack []byte) bool {
 // isMatchUnanchored implements fast boolean-only matching for unanchored patterns.
 // Unlike searchUnanchoredAt, this doesn't track match positions - just returns
 // true as soon as any match state is reached.
-func (p *PikeVM) isMatchUnanchored(haystack []byte) bool {
+func (p *pikeRun) isMatchUnanchored(haystack []byte) bool {
 	// Reset state
 	p.internalState.Queue = p.internalState.Queue[:0]
 	p.internalState.NextQueue = p.internalState.NextQueue[:0]
@@ -479,7 +546,7 @@ func (p *PikeVM) isMatchUnanchored(haystack []byte) bool {
 }
 
 // isMatchAnchored implements fast boolean-only matching for anchored patterns.
-func (p *PikeVM) isMatchAnchored(haystack []byte) bool {
+func (p *pikeRun) isMatchAnchored(haystack []byte) bool {
 	// Reset state
 	p.internalState.Queue = p.internalState.Queue[:0]
 	p.internalState.NextQueue = p.internalState.NextQueue[:0]
@@ -518,7 +585,7 @@ func (p *PikeVM) isMatchAnchored(haystack []byte) bool {
 // This follows the Rust regex pattern: inner loop for linear chains,
 // stack only for split right branches.
 // Reference: rust-regex/regex-automata/src/nfa/thompson/pikevm.rs:1664-1749
-func (p *PikeVM) addThreadForMatch(id StateID, haystack []byte, pos int) {
+func (p *pikeRun) addThreadForMatch(id StateID, haystack []byte, pos int) {
 	// Use loop-based epsilon closure instead of recursion
 	p.internalState.epsilonStack = p.internalState.epsilonStack[:0]
 	sid := id
@@ -601,7 +668,7 @@ func (p *PikeVM) addThreadForMatch(id StateID, haystack []byte, pos int) {
 }
 
 // stepForMatch processes byte transition for IsMatch - simplified
-func (p *PikeVM) stepForMatch(t thread, b byte, haystack []byte, nextPos int) {
+func (p *pikeRun) stepForMatch(t thread, b byte, haystack []byte, nextPos int) {
 	state := p.nfa.State(t.state)
 	if state == nil {
 		return
@@ -656,7 +723,7 @@ func (p *PikeVM) stepForMatch(t thread, b byte, haystack []byte, nextPos int) {
 // addThreadToNextForMatch adds to next queue for IsMatch - loop-based epsilon closure.
 // This follows the Rust regex pattern: inner loop for linear chains,
 // stack only for split right branches.
-func (p *PikeVM) addThreadToNextForMatch(id StateID, haystack []byte, pos int) {
+func (p *pikeRun) addThreadToNextForMatch(id StateID, haystack []byte, pos int) {
 	// Use loop-based epsilon closure instead of recursion
 	p.internalState.epsilonStack = p.internalState.epsilonStack[:0]
 	sid := id
@@ -745,7 +812,14 @@ func (p *PikeVM) addThreadToNextForMatch(id StateID, haystack []byte, pos int) {
 // Unlike Search, it takes the FULL haystack and a starting position, so assertions
 // like ^ correctly check against the original input start, not a sliced position.
 func (p *PikeVM) SearchAt(haystack []byte, at int) (int, int, bool) {
-	p.ensureInternalState()
+	r := p.acquire()
+	start, end, matched := r.searchFrom(haystack, at)
+	p.release(r)
+	return start, end, matched
+}
+
+// searchFrom implements SearchAt on this run's state.
+func (p *pikeRun) searchFrom(haystack []byte, at int) (int, int, bool) {
 	if at > len(haystack) {
 		return -1, -1, false
 	}
@@ -786,7 +860,14 @@ func (p *PikeVM) SearchAt(haystack []byte, at int) (int, int, bool) {
 // was compiled as anchored. Like SearchAt it takes the FULL haystack, so
 // look-around at 'at' sees the bytes before it.
 func (p *PikeVM) SearchAtAnchored(haystack []byte, at int) (int, int, bool) {
-	p.ensureInternalState()
+	r := p.acquire()
+	start, end, matched := r.searchAtAnchored(haystack, at)
+	p.release(r)
+	return start, end, matched
+}
+
+// searchAtAnchored implements SearchAtAnchored on this run's state.
+func (p *pikeRun) searchAtAnchored(haystack []byte, at int) (int, int, bool) {
 	if at > len(haystack) {
 		return -1, -1, false
 	}
@@ -811,7 +892,7 @@ func (p *PikeVM) SearchAtAnchored(haystack []byte, at int) (int, int, bool) {
 // Match in DFS order) to continue.
 //
 //nolint:gocognit // Merged match-check + step loop (Rust's nexts pattern) is inherently complex
-func (p *PikeVM) searchUnanchoredAt(haystack []byte, startAt int) (int, int, bool) {
+func (p *pikeRun) searchUnanchoredAt(haystack []byte, startAt int) (int, int, bool) {
 	// Reset state
 	p.internalState.Queue = p.internalState.Queue[:0]
 	p.internalState.NextQueue = p.internalState.NextQueue[:0]
@@ -917,7 +998,14 @@ func (p *PikeVM) searchUnanchoredAt(haystack []byte, startAt int) (int, int, boo
 //
 // Performance: O(maxEnd - startAt) instead of O(len(haystack) - startAt).
 func (p *PikeVM) SearchBetween(haystack []byte, startAt, maxEnd int) (int, int, bool) {
-	p.ensureInternalState()
+	r := p.acquire()
+	start, end, matched := r.searchBetween(haystack, startAt, maxEnd)
+	p.release(r)
+	return start, end, matched
+}
+
+// searchBetween implements SearchBetween on this run's state.
+func (p *pikeRun) searchBetween(haystack []byte, startAt, maxEnd int) (int, int, bool) {
 	if startAt > len(haystack) || startAt >= maxEnd {
 		return -1, -1, false
 	}
@@ -941,7 +1029,7 @@ func (p *PikeVM) SearchBetween(haystack []byte, startAt, maxEnd int) (int, int, 
 // It's identical to searchUnanchoredAt but stops at maxEnd instead of len(haystack).
 //
 //nolint:gocognit // Merged match-check + step loop (Rust's nexts pattern) is inherently complex
-func (p *PikeVM) searchUnanchoredBetween(haystack []byte, startAt, maxEnd int) (int, int, bool) {
+func (p *pikeRun) searchUnanchoredBetween(haystack []byte, startAt, maxEnd int) (int, int, bool) {
 	// Reset state
 	p.internalState.Queue = p.internalState.Queue[:0]
 	p.internalState.NextQueue = p.internalState.NextQueue[:0]
@@ -1016,7 +1104,6 @@ func (p *PikeVM) searchUnanchoredBetween(haystack []byte, startAt, maxEnd int) (
 // SearchWithCaptures finds the first match with capture group positions.
 // Returns nil if no match is found.
 func (p *PikeVM) SearchWithCaptures(haystack []byte) *MatchWithCaptures {
-	p.ensureInternalState()
 	return p.SearchWithCapturesAt(haystack, 0)
 }
 
@@ -1027,7 +1114,14 @@ func (p *PikeVM) SearchWithCaptures(haystack []byte) *MatchWithCaptures {
 // This method is used by FindAll* operations to correctly handle anchors like ^.
 // Unlike SearchWithCaptures, it takes the FULL haystack and a starting position.
 func (p *PikeVM) SearchWithCapturesAt(haystack []byte, at int) *MatchWithCaptures {
-	p.ensureInternalState()
+	r := p.acquire()
+	m := r.searchWithCapturesFrom(haystack, at)
+	p.release(r)
+	return m
+}
+
+// searchWithCapturesFrom implements SearchWithCapturesAt on this run's state.
+func (p *pikeRun) searchWithCapturesFrom(haystack []byte, at int) *MatchWithCaptures {
 	if at > len(haystack) {
 		return nil
 	}
@@ -1047,7 +1141,7 @@ func (p *PikeVM) SearchWithCapturesAt(haystack []byte, at int) *MatchWithCapture
 // searchUnanchoredWithCapturesAt implements Thompson's parallel NFA simulation with capture groups.
 //
 //nolint:gocognit // Merged match-check + step loop (Rust's nexts pattern) is inherently complex
-func (p *PikeVM) searchUnanchoredWithCapturesAt(haystack []byte, startAt int) *MatchWithCaptures {
+func (p *pikeRun) searchUnanchoredWithCapturesAt(haystack []byte, startAt int) *MatchWithCaptures {
 	// Reset state
 	p.internalState.Queue = p.internalState.Queue[:0]
 	p.internalState.NextQueue = p.internalState.NextQueue[:0]
@@ -1126,7 +1220,7 @@ func (p *PikeVM) searchUnanchoredWithCapturesAt(haystack []byte, startAt int) *M
 }
 
 // searchAtWithCaptures is like searchAt but returns captures
-func (p *PikeVM) searchAtWithCaptures(haystack []byte, startPos int) *MatchWithCaptures {
+func (p *pikeRun) searchAtWithCaptures(haystack []byte, startPos int) *MatchWithCaptures {
 	// Reset state
 	p.internalState.Queue = p.internalState.Queue[:0]
 	p.internalState.NextQueue = p.internalState.NextQueue[:0]
@@ -1207,10 +1301,17 @@ func (p *PikeVM) searchAtWithCaptures(haystack []byte, startPos int) *MatchWithC
 //   - A match is known to exist in [spanStart, spanEnd] (from Phase 1)
 //
 // Returns nil if no match is found (should not happen if Phase 1 is correct).
+func (p *PikeVM) SearchWithCapturesInSpan(haystack []byte, spanStart, spanEnd int) *MatchWithCaptures {
+	r := p.acquire()
+	m := r.searchWithCapturesInSpan(haystack, spanStart, spanEnd)
+	p.release(r)
+	return m
+}
+
+// searchWithCapturesInSpan implements SearchWithCapturesInSpan on this run's state.
 //
 //nolint:gocognit // Merged match-check + step loop (Rust's nexts pattern) is inherently complex
-func (p *PikeVM) SearchWithCapturesInSpan(haystack []byte, spanStart, spanEnd int) *MatchWithCaptures {
-	p.ensureInternalState()
+func (p *pikeRun) searchWithCapturesInSpan(haystack []byte, spanStart, spanEnd int) *MatchWithCaptures {
 	if spanStart > spanEnd || spanEnd > len(haystack) {
 		return nil
 	}
@@ -1282,7 +1383,7 @@ func (p *PikeVM) SearchWithCapturesInSpan(haystack []byte, spanStart, spanEnd in
 }
 
 // buildCapturesResult converts internal capture slots to the result format
-func (p *PikeVM) buildCapturesResult(caps []int, matchStart, matchEnd int) [][]int {
+func (p *pikeRun) buildCapturesResult(caps []int, matchStart, matchEnd int) [][]int {
 	numGroups := p.nfa.CaptureCount()
 	if numGroups == 0 {
 		// No captures defined - return just group 0 (entire match)
@@ -1314,7 +1415,14 @@ func (p *PikeVM) buildCapturesResult(caps []int, matchStart, matchEnd int) [][]i
 // SearchAll finds all non-overlapping matches in the haystack.
 // Returns a slice of matches in order of occurrence.
 func (p *PikeVM) SearchAll(haystack []byte) []Match {
-	p.ensureInternalState()
+	r := p.acquire()
+	matches := r.searchAll(haystack)
+	p.release(r)
+	return matches
+}
+
+// searchAll implements SearchAll on this run's state.
+func (p *pikeRun) searchAll(haystack []byte) []Match {
 	var matches []Match
 	pos := 0
 
@@ -1341,7 +1449,7 @@ func (p *PikeVM) SearchAll(haystack []byte) []Match {
 
 // searchAt attempts to find a match starting at the given position.
 // Uses leftmost-first (Perl) or leftmost-longest (POSIX) semantics based on p.internalState.Longest flag.
-func (p *PikeVM) searchAt(haystack []byte, startPos int) (int, int, bool) {
+func (p *pikeRun) searchAt(haystack []byte, startPos int) (int, int, bool) {
 	// Reset state
 	p.internalState.Queue = p.internalState.Queue[:0]
 	p.internalState.NextQueue = p.internalState.NextQueue[:0]
@@ -1400,7 +1508,7 @@ func (p *PikeVM) searchAt(haystack []byte, startPos int) (int, int, bool) {
 // addThread adds a new thread to the current queue, following epsilon transitions.
 // DFS ordering: left branch is explored first, which determines greedy/non-greedy behavior.
 // The sparse set (Visited) ensures first-arrival-wins deduplication.
-func (p *PikeVM) addThread(t thread, haystack []byte, pos int) {
+func (p *pikeRun) addThread(t thread, haystack []byte, pos int) {
 	if !p.internalState.Visited.Insert(uint32(t.state)) {
 		return
 	}
@@ -1465,7 +1573,7 @@ func (p *PikeVM) addThread(t thread, haystack []byte, pos int) {
 }
 
 // step processes a single byte transition for a thread
-func (p *PikeVM) step(t thread, b byte, haystack []byte, nextPos int) {
+func (p *pikeRun) step(t thread, b byte, haystack []byte, nextPos int) {
 	state := p.nfa.State(t.state)
 	if state == nil {
 		return
@@ -1520,7 +1628,7 @@ func (p *PikeVM) step(t thread, b byte, haystack []byte, nextPos int) {
 
 // addThreadToNext adds a thread to the next generation queue.
 // DFS ordering: left branch explored first (same as addThread).
-func (p *PikeVM) addThreadToNext(t thread, haystack []byte, pos int) {
+func (p *pikeRun) addThreadToNext(t thread, haystack []byte, pos int) {
 	if !p.internalState.Visited.Insert(uint32(t.state)) {
 		return
 	}
@@ -1575,13 +1683,13 @@ func (p *PikeVM) addThreadToNext(t thread, haystack []byte, pos int) {
 }
 
 // matchesEmpty checks if the NFA matches an empty string at position 0
-func (p *PikeVM) matchesEmpty() bool {
+func (p *pikeRun) matchesEmpty() bool {
 	return p.matchesEmptyAt(nil, 0)
 }
 
 // matchesEmptyAt checks if the NFA matches an empty string at the given position.
 // This is needed for correctly evaluating look assertions like ^ and $ in multiline mode.
-func (p *PikeVM) matchesEmptyAt(haystack []byte, pos int) bool {
+func (p *pikeRun) matchesEmptyAt(haystack []byte, pos int) bool {
 	// Reset state
 	p.internalState.Queue = p.internalState.Queue[:0]
 	p.internalState.Visited.Clear()
@@ -1708,9 +1816,8 @@ func checkLookAssertion(look Look, haystack []byte, pos int) bool {
 //
 // Returns (start, end, found) for the first match.
 //
-// This method uses internal state and is NOT thread-safe.
+// Safe for concurrent use (see PikeVM).
 func (p *PikeVM) SearchWithSlotTable(haystack []byte, mode SearchMode) (int, int, bool) {
-	p.ensureInternalState()
 	return p.SearchWithSlotTableAt(haystack, 0, mode)
 }
 
@@ -1724,7 +1831,14 @@ func (p *PikeVM) SearchWithSlotTable(haystack []byte, mode SearchMode) (int, int
 //
 // Returns (start, end, found) for the first match.
 func (p *PikeVM) SearchWithSlotTableAt(haystack []byte, at int, mode SearchMode) (int, int, bool) {
-	p.ensureInternalState()
+	r := p.acquire()
+	start, end, matched := r.searchWithSlotTableFrom(haystack, at, mode)
+	p.release(r)
+	return start, end, matched
+}
+
+// searchWithSlotTableFrom implements SearchWithSlotTableAt on this run's state.
+func (p *pikeRun) searchWithSlotTableFrom(haystack []byte, at int, mode SearchMode) (int, int, bool) {
 	if at > len(haystack) {
 		return -1, -1, false
 	}
@@ -1759,7 +1873,7 @@ func (p *PikeVM) SearchWithSlotTableAt(haystack []byte, at int, mode SearchMode)
 // Captures are stored in SlotTable per-state, not per-thread.
 //
 //nolint:gocognit // Merged match-check + step loop (Rust's nexts pattern) is inherently complex
-func (p *PikeVM) searchWithSlotTableUnanchored(haystack []byte, startAt int) (int, int, bool) {
+func (p *pikeRun) searchWithSlotTableUnanchored(haystack []byte, startAt int) (int, int, bool) {
 	p.internalState.SearchQueue = p.internalState.SearchQueue[:0]
 	p.internalState.SearchNextQueue = p.internalState.SearchNextQueue[:0]
 	p.internalState.Visited.Clear()
@@ -1844,7 +1958,7 @@ func (p *PikeVM) searchWithSlotTableUnanchored(haystack []byte, startAt int) (in
 }
 
 // searchWithSlotTableAnchored implements anchored search using lightweight threads.
-func (p *PikeVM) searchWithSlotTableAnchored(haystack []byte, startPos int) (int, int, bool) {
+func (p *pikeRun) searchWithSlotTableAnchored(haystack []byte, startPos int) (int, int, bool) {
 	p.internalState.SearchQueue = p.internalState.SearchQueue[:0]
 	p.internalState.SearchNextQueue = p.internalState.SearchNextQueue[:0]
 	p.internalState.Visited.Clear()
@@ -1907,7 +2021,7 @@ func (p *PikeVM) searchWithSlotTableAnchored(haystack []byte, startPos int) (int
 // Captures are stored in SlotTable, not in the thread.
 //
 //nolint:gocognit // Stack-based epsilon closure with 7 state types is inherently complex
-func (p *PikeVM) addSearchThread(t searchThread, haystack []byte, pos int) {
+func (p *pikeRun) addSearchThread(t searchThread, haystack []byte, pos int) {
 	st := &p.internalState
 	activeSlots := st.SlotTable.ActiveSlots()
 
@@ -2021,7 +2135,7 @@ func (p *PikeVM) addSearchThread(t searchThread, haystack []byte, pos int) {
 }
 
 // stepSearchThread processes a byte transition for a lightweight thread.
-func (p *PikeVM) stepSearchThread(t searchThread, b byte, haystack []byte, nextPos int) {
+func (p *pikeRun) stepSearchThread(t searchThread, b byte, haystack []byte, nextPos int) {
 	state := p.nfa.State(t.state)
 	if state == nil {
 		return
@@ -2078,7 +2192,7 @@ func (p *PikeVM) stepSearchThread(t searchThread, b byte, haystack []byte, nextP
 // Uses stack-based epsilon closure with capture save/restore.
 //
 //nolint:gocognit,gocyclo,cyclop // Stack-based epsilon closure with capture save/restore
-func (p *PikeVM) addSearchThreadToNext(t searchThread, srcState StateID, haystack []byte, pos int) {
+func (p *pikeRun) addSearchThreadToNext(t searchThread, srcState StateID, haystack []byte, pos int) {
 	st := &p.internalState
 	activeSlots := st.SlotTable.ActiveSlots()
 
@@ -2191,7 +2305,6 @@ func (p *PikeVM) addSearchThreadToNext(t searchThread, srcState StateID, haystac
 // SearchWithSlotTableCaptures finds the first match and returns captures.
 // Uses zero-allocation SlotTable architecture (Rust approach).
 func (p *PikeVM) SearchWithSlotTableCaptures(haystack []byte) *MatchWithCaptures {
-	p.ensureInternalState()
 	return p.SearchWithSlotTableCapturesAt(haystack, 0)
 }
 
@@ -2199,7 +2312,14 @@ func (p *PikeVM) SearchWithSlotTableCaptures(haystack []byte) *MatchWithCaptures
 // Uses dual SlotTable (curr/next) for zero-allocation capture tracking.
 // Matches Rust's PikeVM Cache with curr/next ActiveStates (pikevm.rs:1878).
 func (p *PikeVM) SearchWithSlotTableCapturesAt(haystack []byte, at int) *MatchWithCaptures {
-	p.ensureInternalState()
+	r := p.acquire()
+	m := r.searchWithSlotTableCapturesFrom(haystack, at)
+	p.release(r)
+	return m
+}
+
+// searchWithSlotTableCapturesFrom implements SearchWithSlotTableCapturesAt on this run's state.
+func (p *pikeRun) searchWithSlotTableCapturesFrom(haystack []byte, at int) *MatchWithCaptures {
 	if at > len(haystack) {
 		return nil
 	}
@@ -2226,7 +2346,7 @@ func (p *PikeVM) SearchWithSlotTableCapturesAt(haystack []byte, at int) *MatchWi
 // Captures stored in SlotTable per-state, saved to bestSlots on match.
 //
 //nolint:gocognit,gocyclo,cyclop // Merged match-check + step + seed loop
-func (p *PikeVM) searchWithSlotTableCapturesUnanchored(haystack []byte, startAt int) *MatchWithCaptures {
+func (p *pikeRun) searchWithSlotTableCapturesUnanchored(haystack []byte, startAt int) *MatchWithCaptures {
 	st := &p.internalState
 	st.SearchQueue = st.SearchQueue[:0]
 	st.SearchNextQueue = st.SearchNextQueue[:0]
@@ -2334,7 +2454,7 @@ func (p *PikeVM) searchWithSlotTableCapturesUnanchored(haystack []byte, startAt 
 // searchWithSlotTableCapturesAnchored implements anchored search with captures.
 //
 //nolint:gocognit // Merged match-check + step loop (Rust's nexts pattern)
-func (p *PikeVM) searchWithSlotTableCapturesAnchored(haystack []byte, startPos int) *MatchWithCaptures {
+func (p *pikeRun) searchWithSlotTableCapturesAnchored(haystack []byte, startPos int) *MatchWithCaptures {
 	st := &p.internalState
 	st.SearchQueue = st.SearchQueue[:0]
 	st.SearchNextQueue = st.SearchNextQueue[:0]
@@ -2413,7 +2533,7 @@ func (p *PikeVM) searchWithSlotTableCapturesAnchored(haystack []byte, startPos i
 }
 
 // buildCapturesFromSlots converts flat slot data to MatchWithCaptures result.
-func (p *PikeVM) buildCapturesFromSlots(slots []int, matchStart, matchEnd int) *MatchWithCaptures {
+func (p *pikeRun) buildCapturesFromSlots(slots []int, matchStart, matchEnd int) *MatchWithCaptures {
 	numGroups := p.nfa.CaptureCount()
 	captures := make([][]int, numGroups)
 	captures[0] = []int{matchStart, matchEnd}
